@@ -254,7 +254,15 @@ func (svg *SVGImage) drawNode(dst backend.Canvas, node *svgNode, dims drawingDim
 	if paint {
 		dst.OnNewStack(paintTask)
 	} else {
+		// no graphic stack while a clipping path is built: the matrix is put back by hand,
+		// so that the transform of this node does not apply to its next siblings
+		oldCtm := dst.State().GetTransform()
 		paintTask()
+		if newCtm := dst.State().GetTransform(); newCtm != oldCtm {
+			if err := newCtm.Invert(); err == nil {
+				dst.State().Transform(matrix.Mul(newCtm, oldCtm))
+			}
+		}
 	}
 }
 
